@@ -291,7 +291,7 @@ def finish(pr, mod, open_known, used_open):
     write_evidence(pr, mod, code, n_viol)
     pr.say(
         "%s tier=%s obligations=%d discharged=%d undecided=%d known_findings=%d violations=%d bounded_checks=%d exit=%d (%.1fs)"
-        % (pid, pr.tier, pr.obl_total, pr.obl_proved, len(pr.undecided), len(pr.known_hits), n_viol, len(pr.bounded), code, time.time() - pr.t0)
+        % (pid, pr.tier, pr.obl_total, pr.obl_proved, len(pr.undecided), len(pr.known_hits) + sum(len(b.get("known_hits", [])) for b in pr.bounded), n_viol, len(pr.bounded), code, time.time() - pr.t0)
     )
     return code
 
